@@ -112,6 +112,13 @@ def gen_quic_conn(R, cid, cfg, used, **epkw):
     q["pn0"] = {k: 0 for k in ("ci", "si", "ch", "sh", "ca", "sa")}     # RFC 9000 12.3: packet numbers start at 0
     q["ncid"] = {"s": H.range(0, 3) if H.chance(cfg.get("ncid_pct", 40)) else 0,
                  "c": H.range(0, 2) if H.chance(cfg.get("ncid_pct", 40) // 2) else 0}
+    if R.fork("vnegpre").chance(cfg.get("vneg_pct", 0)):
+        q["vneg_prelude"] = True
+    HL = R.fork("ncidlen")
+    if HL.chance(cfg.get("ncid_len_vary_pct", 30)):
+        # an endpoint may issue connection ids of other lengths than its first one (RFC 9000 5.1); >= 4 bytes so that no
+        # id is by chance a prefix of a packet addressed to another id
+        q["ncid_len"] = {"s": [HL.range(4, 20) for _ in range(4)], "c": [HL.range(4, 20) for _ in range(3)]}
     q["early_s"] = H.chance(25)       # server sends 1-RTT data right after its handshake flight
     # retransmitted handshake datagrams (exact copies seen twice by the tap)
     q["hs_dup"] = {"c": H.chance(cfg.get("hs_dup_pct", 15)), "s": H.chance(cfg.get("hs_dup_pct", 15))}
@@ -508,6 +515,22 @@ def build_units(conn):
                                                  RR=R.fork("zpk", j + start, len(token or b"")))]))
         return idx
 
+    if q.get("vneg_prelude"):
+        # the client first tries a version the server does not speak (its own first connection id D0); the server answers
+        # with Version Negotiation and the client starts over with QUIC v1 and a fresh first Destination Connection ID
+        V = R.fork("vneg")
+        d0 = V.bytes(V.range(8, 20))
+        ver = V.choice([0x1a2a3a4a, 0xff00001d, 0x6b3343cf, 0xfaceb002])
+        first = bytes([0xC0 | V.below(16)]) + ver.to_bytes(4, "big") + bytes([len(d0)]) + d0 + bytes([len(C.scid)]) + C.scid
+        first += V.bytes(1200 - len(first))
+        dgrams.append(first)
+        dmeta.append({"d": "c", "stream": b"", "pk": [{"d": "c", "kind": "vneg", "frames": []}], "plain": False})
+        flights.append({"c": [len(dgrams) - 1], "s": []})
+        vn = bytes([0x80 | V.below(128)]) + b"\x00\x00\x00\x00" + bytes([len(C.scid)]) + C.scid + bytes([len(d0)]) + d0
+        vn += b"".join(v.to_bytes(4, "big") for v in [1] + [V.choice([0x6b3343cf, 0xff00001d, 0x0a0a0a0a])][:V.below(2)])
+        dgrams.append(vn)
+        dmeta.append({"d": "s", "stream": b"", "pk": [{"d": "s", "kind": "vneg", "frames": []}], "plain": False})
+        flights.append({"c": [], "s": [len(dgrams) - 1]})
     flights.append({"c": client_first_flight(None), "s": []})
     if (q.get("hs_dup") or {}).get("c"):
         acts[flights[-1]["c"][0]] = ["dup", 1]
@@ -594,7 +617,7 @@ def build_units(conn):
     # server: 1-RTT HANDSHAKE_DONE, NEW_TOKEN, NEW_CONNECTION_IDs ; client: NEW_CONNECTION_IDs
     fr = [["hsdone"]]
     for j in range(q["ncid"]["s"] if len(S.scid) > 0 else 0):
-        cidb = R.fork("ncid", "s", j).bytes(len(S.scid))
+        cidb = R.fork("ncid", "s", j).bytes((q.get("ncid_len") or {}).get("s", [len(S.scid)] * 8)[j])
         S.issued.append(cidb)
         fr.append(["ncid", cidb.hex(), S.ncid_seq])
         S.ncid_seq += 1
@@ -603,7 +626,7 @@ def build_units(conn):
     if q["ncid"]["c"] and len(C.scid) > 0:
         fr = []
         for j in range(q["ncid"]["c"]):
-            cidb = R.fork("ncid", "c", j).bytes(len(C.scid))
+            cidb = R.fork("ncid", "c", j).bytes((q.get("ncid_len") or {}).get("c", [len(C.scid)] * 8)[j])
             C.issued.append(cidb)
             fr.append(["ncid", cidb.hex(), C.ncid_seq])
             C.ncid_seq += 1
@@ -732,7 +755,7 @@ def reduction_candidates(conn):
                 c = copy.deepcopy(conn)
                 del c["q"]["script"][i][key]
                 yield "flight %d: no %s" % (i, key), c
-    for key, simple in (("retry", False), ("zero_rtt", None), ("early_s", False), ("hs_dup", None), ("one_way", None), ("migrate_at", None), ("s_coalesce", False),
+    for key, simple in (("retry", False), ("zero_rtt", None), ("early_s", False), ("hs_dup", None), ("one_way", None), ("migrate_at", None), ("ncid_len", None), ("vneg_prelude", None), ("s_coalesce", False),
                         ("c_coalesce", False), ("ch_cuts", []), ("pad_mode", "frames")):
         if q.get(key) not in (simple, None, False, []):
             c = copy.deepcopy(conn)
@@ -782,6 +805,10 @@ def check_keys(out, conn, t, pr):
     for p in inits:
         keys = p[4]
         m = models.get(p[2])
+        if m is None and not keys.get("client_initial_key"):
+            # an attempt that installed nothing (packet of a version the tool does not know) is not an installation
+            out.count("initial_attempt_without_keys")
+            continue
         if m is None:
             out.violate("installed-keys-equal-rfc", "wrong:quic-initial-from-wrong-dcid",
                         "%s: Initial keys derived from %s, client's Initial DCIDs were %s" % (tag, p[2], sorted(models)))
